@@ -163,7 +163,13 @@ func (s *session) buildMoq() {
 	_ = os.MkdirAll(filepath.Join(s.scratch, "bin"), 0o755)
 	s.moq = filepath.Join(s.scratch, "bin", "moq")
 	env := append(buildEnv(), "CGO_ENABLED=0")
-	if out, err := run(dst, env, "go", "build", "-tags", "verif", "-o", s.moq, "."); err != nil {
+	args := []string{"build", "-tags", "verif", "-o", s.moq}
+	if os.Getenv("VP_COVER") != "" {
+		// development aid (tools/gen_coverage.sh): which statements of moq do the generated inputs reach?
+		args = append(args, "-cover", "-coverpkg=./...")
+	}
+	args = append(args, ".")
+	if out, err := run(dst, env, "go", args...); err != nil {
 		fmt.Println(out)
 		die(2, "building moq from %s failed (the tree under test must compile): %v", repoDir(), err)
 	}
@@ -235,6 +241,9 @@ func (s *session) harnessEnv(prop string) []string {
 		"GOROOT="+s.goroot,
 		"VP_TIER="+os.Getenv("VP_TIER_INTERNAL"),
 	)
+	if d := os.Getenv("VP_COVER"); d != "" {
+		env = append(env, "VP_COVER="+d)
+	}
 	return env
 }
 
